@@ -1,5 +1,5 @@
 """C14: see DESIGN.md section 4 C14 (fault enumeration inside new_cyclic)."""
-from _ccmon import native, miri, floor_msgs, COMMON_ASSUMPTIONS
+from _ccmon import native, miri, evolve, floor_msgs, COMMON_ASSUMPTIONS
 from driver import FULL, ALL_FEATURE_SETS
 
 LEVEL = "fault_enumeration"
@@ -23,6 +23,8 @@ def plan(ctx):
         steps += native(ctx, p, "C14", FULL, "debug", 0, 1, faults="single", gen="directed")
         steps += native(ctx, p, "C14", "auto-collect,weak-ptrs,cleaners", "debug", 1000, 1, faults="single")
         steps += native(ctx, p, "C14", "finalization,weak-ptrs", "debug", 1000, 1, faults="single")
+        steps += evolve(ctx, p, "C14", FULL, "release", 8000, 2, faults="single")
+        steps += evolve(ctx, p, "C14", FULL, "debug", 4000, 1, faults="single")
         steps += miri(ctx, p, "C14", FULL, 24, 12, faults="single", extra=["--max-fault-points", "3", "--max-ops", "16"])
     else:
         for fs in weak_sets:
@@ -30,6 +32,9 @@ def plan(ctx):
             for profile in ("debug", "release"):
                 steps += native(ctx, p, "C14", fs, profile, 60000 if main else 8000, 6 if main else 1, faults="single", timeout=3000)
             steps += native(ctx, p, "C14", fs, "debug", 0, 1, faults="single", gen="directed", timeout=3000)
+        steps += evolve(ctx, p, "C14", FULL, "release", 150000, 10, faults="single", timeout=3000)
+        steps += evolve(ctx, p, "C14", FULL, "debug", 50000, 4, faults="single", timeout=3000)
+        steps += evolve(ctx, p, "C14", "auto-collect,weak-ptrs,cleaners", "release", 50000, 2, faults="single", timeout=3000)
         steps += native(ctx, p, "C14", FULL, "release", 3000, 6, faults="single", tool="asan", alloc="track", timeout=3000)
         steps += native(ctx, p, "C14", FULL, "release", 200, 4, faults="single", tool="valgrind", alloc="track", timeout=3000)
         steps += miri(ctx, p, "C14", FULL, 256, 32, faults="single", extra=["--max-fault-points", "40"], timeout=2400)
